@@ -56,6 +56,9 @@ func checkRuntime(c *Ctx, prop string) {
 	if prop == "C06" || prop == "C05" {
 		rtZeroSize(c, c.scale(20, 400))
 	}
+	if prop == "C05" {
+		rtRefused(c, c.scale(4, 40), 150)
+	}
 	if prop == "C06" {
 		rtUnregRace(c, c.scale(20, 300))
 	}
